@@ -1,0 +1,81 @@
+//! Verification hooks (feature `verif-hooks`, off by default).
+//!
+//! Accessors that let an external harness crate build arbitrary
+//! `SrtlaConnection` states and read back crate-private fields. Add-only: no
+//! production code path calls anything in here.
+
+use crate::connection::SrtlaConnection;
+
+/// Crate-private scalar fields of [`SrtlaConnection`] a harness may set.
+#[derive(Clone, Copy, Debug, Default)]
+pub struct ConnPrivate {
+    pub stall_gated: bool,
+    pub stall_latched_since_ms: u64,
+    pub stall_recovery_since_ms: u64,
+    pub stall_gate_events: u64,
+    pub stall_probe_counter: u32,
+    pub silence_pulled: bool,
+    pub silence_pulls: u64,
+    pub conn_timeout_ms: u64,
+    pub quality_multiplier: f64,
+    pub quality_last_calculated_ms: u64,
+    pub highest_acked_seq: i32,
+    pub last_keepalive_sent: Option<u64>,
+}
+
+pub fn get_private(c: &SrtlaConnection) -> ConnPrivate {
+    ConnPrivate {
+        stall_gated: c.stall_gated,
+        stall_latched_since_ms: c.stall_latched_since_ms,
+        stall_recovery_since_ms: c.stall_recovery_since_ms,
+        stall_gate_events: c.stall_gate_events,
+        stall_probe_counter: c.stall_probe_counter,
+        silence_pulled: c.silence_pulled,
+        silence_pulls: c.silence_pulls,
+        conn_timeout_ms: c.conn_timeout_ms,
+        quality_multiplier: c.quality_cache.multiplier,
+        quality_last_calculated_ms: c.quality_cache.last_calculated_ms,
+        highest_acked_seq: c.highest_acked_seq,
+        last_keepalive_sent: c.last_keepalive_sent,
+    }
+}
+
+pub fn set_private(c: &mut SrtlaConnection, p: ConnPrivate) {
+    c.stall_gated = p.stall_gated;
+    c.stall_latched_since_ms = p.stall_latched_since_ms;
+    c.stall_recovery_since_ms = p.stall_recovery_since_ms;
+    c.stall_gate_events = p.stall_gate_events;
+    c.stall_probe_counter = p.stall_probe_counter;
+    c.silence_pulled = p.silence_pulled;
+    c.silence_pulls = p.silence_pulls;
+    c.conn_timeout_ms = p.conn_timeout_ms;
+    c.quality_cache.multiplier = p.quality_multiplier;
+    c.quality_cache.last_calculated_ms = p.quality_last_calculated_ms;
+    c.highest_acked_seq = p.highest_acked_seq;
+    c.last_keepalive_sent = p.last_keepalive_sent;
+}
+
+/// In-flight bookkeeping (crate-private without `test-internals`).
+pub fn packet_log_len(c: &SrtlaConnection) -> usize {
+    c.packet_log.len()
+}
+
+pub fn packet_log_contains(c: &SrtlaConnection, seq: i32) -> bool {
+    c.packet_log.contains_key(&seq)
+}
+
+pub fn set_phase(c: &mut SrtlaConnection, phase: crate::connection::LinkPhase) {
+    c.phase = phase;
+}
+
+pub fn get_phase(c: &SrtlaConnection) -> crate::connection::LinkPhase {
+    c.phase
+}
+
+pub fn congestion_mut(c: &mut SrtlaConnection) -> &mut crate::connection::CongestionControl {
+    &mut c.congestion
+}
+
+pub fn bitrate_mut(c: &mut SrtlaConnection) -> &mut crate::connection::BitrateTracker {
+    &mut c.bitrate
+}
